@@ -114,6 +114,27 @@ fn main() {
                 }
             };
             let id = doc["property"].as_str().unwrap_or("").to_string();
+            // a replay that does not terminate is the violation it replays
+            install_exit_guard(&id);
+            start_watchdog(120);
+            let _g = watch(&id, || doc["case"].to_string());
+            // a hang of the binary recorded without the check's own case description: the
+            // client's input is replayed as it was written
+            if let Some(input) = doc["case"].get("client_input") {
+                let limit = std::time::Duration::from_secs(20);
+                let o = match input {
+                    Value::Array(a) if a.iter().all(|m| m.is_object()) => procdrv::run_lockstep(a, limit),
+                    Value::Array(a) => procdrv::run_chunks(&a.iter().map(|c| c.as_str().unwrap_or("").as_bytes().to_vec()).collect::<Vec<_>>(), false, limit),
+                    other => procdrv::run_chunks(&[other.as_str().unwrap_or("").as_bytes().to_vec()], false, limit),
+                };
+                if o.timed_out || o.unanswered.is_some() {
+                    println!("VIOLATION property={} replay={}", id, path.display());
+                    println!("  key=hang detail=timed out {} unanswered {:?}", o.timed_out, o.unanswered);
+                    exit_process(1)
+                }
+                println!("replay: case passes on the current tree");
+                exit_process(0)
+            }
             match replay_case(&id, &doc["case"]) {
                 Some(fails) if fails.is_empty() => {
                     println!("replay: case passes on the current tree");
